@@ -53,7 +53,10 @@ D1F2(u_) == {F2A(f, x, y) : f \in F2, x \in StrLeaves(0) \cup TreeLeaves \cup Sm
 RxSubjects == {L(""), L("a"), L("abc"), L("xabcx"), L("ab"), L("aab"), L("a~b"), L("abcd"), L("b"), Rel1("vnum"), Rel1("vabs"), N1}
 RxPatterns == {L(""), L("a"), L("abc"), L("a*"), L("a*b"), L("a.c"), L(".*"), L(".+b"), L("ab|cd"), L("a|abc"), L("ab?c?"), L("a+b"), L(".."), L("12"), L("1")}
 D1Rx(u_) == {F2A("re-match", x, y) : x \in RxSubjects, y \in RxPatterns}
-SubArgs == SmallNums \cup Specials \cup {N("3", Num(3)), N("1.5", Fin(FALSE, 3, 2)), L("2"), L("x"), Rel1("vabs"), Rel1("vnum")}
+\* positions and lengths of every magnitude: beyond the string, beyond 2^53 (where adding one no longer changes a double), both signs
+HugeNums == {N("100000000000", P10(FALSE, 11)), NegA(N("100000000000", P10(FALSE, 11))), N("1000000000000000000", P10(FALSE, 18)),
+             NegA(N("1000000000000000000", P10(FALSE, 18))), N("9007199254740991", Big(FALSE, 2)), NegA(N("9007199254740991", Big(FALSE, 2)))}
+SubArgs == SmallNums \cup Specials \cup HugeNums \cup {N("3", Num(3)), N("1.5", Fin(FALSE, 3, 2)), L("2"), L("x"), Rel1("vabs"), Rel1("vnum")}
 D1F3(u_) == {F3A("substring", s, p, l) : s \in {L("12345"), L("a~b^c"), L(""), Rel1("vtxt"), Rel1("vabs")}, p \in SubArgs, l \in SubArgs}
         \cup {F3A("translate", x, y, z) : x \in SmallStrs \cup {Rel1("vtxt")}, y \in SmallStrs, z \in {L(""), L("a"), L("12"), L("~"), L("^xy")}}
 ArithD1(u_) == {BinA(o, x, y) : o \in ArithOps, x \in NumLike, y \in NumLike}
@@ -149,6 +152,13 @@ UnionChains(u_) ==
 PathValues(u_) == {Path(r, pre \o <<St(leaf)>>) : r \in {"abs", "rel", "cur"},
                                                   pre \in {<< >>, <<St("a")>>, <<StP("a", <<Pred("k", L("x"))>>)>>, <<St("..")>>, <<St("b"), St("..")>>},
                                                   leaf \in {"vabs", "vmulti", "vm2", "vone", "vnil", "vempty", "vnum", "vneg", "vtxt"}}
+\* names of one character directly after a one-character token (/ . < > @ and friends): the lexer's look-ahead holds the
+\* name's only character while the blanks behind it are skipped, so name length is an input dimension of its own
+ShortNameOpnds == {Rel1("a"), Path("abs", <<St("a")>>), Path("abs", <<St("a"), St("b")>>), Path("rel", <<St(".."), St("a")>>),
+                  Path("rel", <<St("."), St("a")>>), Path("cur", <<St("a")>>)}
+ShortNameChains(u_) == UNION {Chain2(x, y, OpC) : x \in ShortNameOpnds, y \in {Rel1("a"), Path("abs", <<St("b")>>), OpB}}
+                       \cup UNION {Chain2(OpA, x, y) : x \in ShortNameOpnds, y \in {Rel1("b"), Path("abs", <<St("a")>>)}}
+                       \cup {NegA(x) : x \in ShortNameOpnds} \cup {BinA(o, NegA(x), y) : o \in AllOps, x \in ShortNameOpnds, y \in {Rel1("a"), OpB}}
 Family(i) ==
   CASE i = 1 -> D1Bin(ArithOps)
     [] i = 2 -> D1Bin({"=", "!="})
@@ -170,7 +180,8 @@ Family(i) ==
     [] i = 18 -> LLFirst(0)
     [] i = 19 -> UnionChains(0)
     [] i = 20 -> PathValues(0)
-NFamilies == 20
+    [] i = 21 -> ShortNameChains(0)
+NFamilies == 21
 \* families 9 and 10 are big and come in NChunks chunks; the others are chunk 0 only
 FamilyC(i, c, C) ==
   IF i = 9 THEN D2Bin(ArithOps, c, C) ELSE IF i = 10 THEN D2Bin(CmpOps \cup BoolOps, c, C)
